@@ -161,6 +161,16 @@ class Ctx:
         tool = self.tables_tool()
         out = os.path.join(VERIF, "coq", group, name)
         rc, log = sh([tool, "-repo", self.repo, "-group", group, "-out", out], timeout=120)
+        if rc != 0:
+            # the source no longer has a shape the translator knows: fall back to the committed tables of
+            # the last known tree (coq/<group>/Tables.default) so that the model keeps describing that tree
+            # and the correspondence run can show where the code now differs; the caller reports the
+            # translator failure as an unchecked obligation.
+            dflt = os.path.join(VERIF, "coq", group, "Tables.default")
+            if os.path.exists(dflt):
+                data = open(dflt).read()
+                if not os.path.exists(out) or open(out).read() != data:
+                    open(out, "w").write(data)
         return rc == 0, log.strip()
 
     # ---------------------------------------------------------------- coq
